@@ -1,5 +1,6 @@
 """C06 — ring buffers are FIFO queues / delay lines (DESIGN.md §6 C06)."""
 from vlib.vunit import run_unit, build_search
+from vlib.kani import run_kani
 
 
 def run(ctx):
@@ -9,8 +10,11 @@ def run(ctx):
                     'get_unchecked(_mut) modelled as indexing with the bound as proof obligation, ptr::read/write '
                     'on Copy elements modelled as load/store (T3)')
     ctx.add_trusted('T5: a backing slice has at most isize::MAX elements (axiom ax_slice_len)')
-    ctx.add_assumption('std Index/IndexMut/From impl bodies are verified as inherent methods (R-inherent); '
+    ctx.add_trusted('Kani 0.68 / CBMC 6.11 for the bounded iterator-view harnesses')
+    ctx.add_assumption('std Index/IndexMut/From/Iterator impl bodies are verified as inherent methods (R-inherent); '
                        'the trait dispatch itself is not modelled')
+    ctx.add_assumption('slices_mut: only the views on entry are proved by Verus (vstd has no prophecy spec for '
+                       'split_at_mut); write-through of slices_mut/iter_mut is covered by the bounded Kani part only')
     run_unit(ctx, 'ring_buffer', search_map={
         'Fixed::index': ['Fixed::index', 'Fixed::get'],
         'Fixed::index_mut': ['Fixed::get_mut'],
@@ -18,6 +22,12 @@ def run(ctx):
         'Bounded::index_mut': ['Bounded::get_mut'],
         'DrainBounded::next': ['Bounded::drain'],
     })
+    # bounded stand-in for the std-iterator views (never counted as proved)
+    caps = ['cap1', 'cap2', 'cap3'] if ctx.tier == 'quick' else ['cap1', 'cap2', 'cap3', 'cap4']
+    note = ('BOUNDED (not proof): iter / iter_loop / iter_mut / slices_mut write-through checked by Kani for capacity in %s '
+            'only, every (start,len)/first, symbolic i32 contents, loops unwound 8 with unwinding assertions' % caps)
+    ctx.bounded.append(note)
+    run_kani(ctx, 'ring_buffer', harness=caps, bounded_note=note, harness_timeout='10m')
 
 
 def prepare_replay(rec):
